@@ -12,4 +12,5 @@ let table : (string * (z list -> z list)) list = [
   ("framing", run_framing);
   ("times", run_times);
   ("history", run_history);
+  ("session", run_session);
 ]
